@@ -755,6 +755,10 @@ func Corpus(tier string, embedded []*Schema) []*Schema {
 		gm.field("a", 1, tInt32, "")
 		g.MessageType = append(g.MessageType, gm.msg)
 		add(&Schema{Name: "unknown_feature", Files: []*descriptorpb.FileDescriptorProto{g}, Param: "features=protoc+nosuchfeature", ExpectError: true})
+		// an empty feature name is not a feature either: `features=`, a doubled or a trailing '+'
+		add(&Schema{Name: "unknown_feature_empty", Files: []*descriptorpb.FileDescriptorProto{g}, Param: "features=", ExpectError: true})
+		add(&Schema{Name: "unknown_feature_gap", Files: []*descriptorpb.FileDescriptorProto{g}, Param: "features=protoc++fast", ExpectError: true})
+		add(&Schema{Name: "unknown_feature_trail", Files: []*descriptorpb.FileDescriptorProto{g}, Param: "features=protoc+fast+", ExpectError: true})
 		g2 := proto.Clone(g).(*descriptorpb.FileDescriptorProto)
 		g2.Options.GoPackage = proto.String(goPkg("featexplicit", ""))
 		g2.Name = proto.String("vc/featexplicit.proto")
